@@ -97,6 +97,14 @@ def run(tier, replay):
             pass
         if stage == "pure":
             return replay_pure(replay)
+        if stage == "blackbox":
+            import c06_blackbox
+            case = json.load(open(replay))["replay"]["case"]
+            reps = c06_blackbox.run_blackbox("quick", only_case=case)
+            for v in reps[0]["violations"]:
+                print("REPLAY-VIOLATION kind=%s key=%s\n  %s" % (v["kind"], v["key"], v["detail"][:1500]))
+            print("replay: %s" % ("still fails" if reps[0]["n_violations"] else "passes"))
+            return 1 if reps[0]["n_violations"] else 0
         checklib.tool_error("unknown replay stage %r" % stage)
     reports = run_pure(tier)
     # stage (b) black box: the same kind of texts through POST /write and GET /query of a real ts-server
